@@ -4,12 +4,16 @@ import os, json, subprocess, time
 import xml.etree.ElementTree as ET
 BASE = json.load(open("/root/.vp/BASELINE.json"))
 STABLE = set(BASE["stable_pass"])
+NETNS = subprocess.run(["unshare", "-n", "sh", "-c", "ip link set lo up"], capture_output=True).returncode == 0
 
 def _run(cwd, args):
     x = "/tmp/pinned-junit-%d-%d.xml" % (os.getpid(), int(time.time() * 1000) % 100000)
-    subprocess.run(["/venv/bin/python", "-m", "pytest", "-q", "-p", "no:cacheprovider", "--timeout=900",
-                    "--continue-on-collection-errors", "--junitxml=" + x] + args, cwd=cwd,
-                   stdout=subprocess.DEVNULL, stderr=subprocess.DEVNULL)
+    cmd = ["/venv/bin/python", "-m", "pytest", "-q", "-p", "no:cacheprovider", "--timeout=900",
+           "--continue-on-collection-errors", "--junitxml=" + x] + args
+    if NETNS:   # own network namespace: the suite's fixed loopback ports cannot collide with other runs
+        import shlex
+        cmd = ["unshare", "-n", "sh", "-c", "ip link set lo up; exec " + " ".join(shlex.quote(c) for c in cmd)]
+    subprocess.run(cmd, cwd=cwd, stdout=subprocess.DEVNULL, stderr=subprocess.DEVNULL)
     ok = set()
     try:
         for tc in ET.parse(x).getroot().iter("testcase"):
